@@ -421,9 +421,9 @@ func realWalletScenarios(r *rng, n int) []scn {
 		{[]planOut{{value: 7777}}, nil, 2},
 		{nil, []planOut{{value: 123456}}, 1},
 		{[]planOut{{value: 546}, {value: 99999}}, []planOut{{value: 5}}, 3},
-		{[]planOut{{sameValue: true}}, nil, 1},                    // change that equals the swap amount, in front
-		{nil, []planOut{{sameValue: true}}, 1},                    // … behind
-		{[]planOut{{value: 4242, sameScript: true}}, nil, 1},      // another payment to the swap address, other amount
+		{[]planOut{{sameValue: true}}, nil, 1},               // change that equals the swap amount, in front
+		{nil, []planOut{{sameValue: true}}, 1},               // … behind
+		{[]planOut{{value: 4242, sameScript: true}}, nil, 1}, // another payment to the swap address, other amount
 		{[]planOut{{value: 1}, {sameValue: true}, {value: 2}}, []planOut{{sameValue: true}}, 2},
 	}
 	var all []scn
